@@ -161,7 +161,10 @@ OnGraphInfoRt2(s, e) ==
     v  |-> If(C17_RoundTripAny(e.ok, e.equal), "C17", "round trip with node info " \o e.kind \o " (" \o e.codec \o ")") ]
 
 OnBuildTimeout(s, e) ==
-  [ st |-> s, v |-> If(C18_Prompt(FALSE), "C18", "build() did not finish within the time bound") ]
+  [ st |-> s,
+    v  |-> If(C18_Prompt(FALSE), "C18",
+              IF "why" \in DOMAIN e /\ e.why = "memory" THEN "build() exceeded the memory bound"
+              ELSE "build() did not finish within the time bound") ]
 
 OnGiIter(s, e) ==
   [ st |-> s,
